@@ -10,7 +10,8 @@ import JaqalModel.Model.GateDef
 * `SubcircuitExpander`: macros are rebuilt first (in order), then the body.  A subcircuit block becomes
   `BlockStatement(parallel=block.parallel, statements=[prepare_def(), *visited, measure_def()])`
   — the subcircuit flag and the iteration count are NOT passed on (defaults `False`, `1`); any other
-  block becomes `BlockStatement(parallel=block.parallel, statements=visited)`; loops keep their count.
+  block becomes `BlockStatement(parallel=block.parallel, statements=visited)`; loops keep their count (the rebuilt
+  `LoopStatement` re-runs `_validate_count`: a float count → `JaqalError`).
 * `prepare_def()` is `AbstractGate.call` without arguments: a definition that has parameters raises
   `JaqalError` ("Bad argument count").  `prepare_def()` is evaluated before the statements of the block
   are visited and `measure_def()` after.
@@ -37,13 +38,24 @@ def chooseBounding (user : Option GateDefChoice) (dflt : String) (c : Circuit) :
   | some (.name n) => (findNative c n).getD (freshDef n)
   | none => (findNative c dflt).getD (freshDef dflt)
 
+/-- `_validate_count(count, …)` raises: a float, or a constant / parameter of kind FLOAT -/
+def badCount : Val → Bool
+  | .flt _ => true
+  | .const _ v => GateDef.constKind v == .float
+  | .param _ k => k == .float
+  | _ => false
+
+/-- `LoopStatement(iterations, statements)` -/
+def mkLoop (count : Val) (body : Stmt) : M Stmt :=
+  if badCount count then .error (.jaqal "count-not-integer") else pure (.loop count body)
+
 mutual
   /-- `SubcircuitExpander(prep, meas).visit(stmt)` -/
   def visitStmt (prep meas : GateDef) : Stmt → M Stmt
     | .gate n gd a => pure (.gate n gd a)
     | .loop count body => do
       let b' ← visitStmt prep meas body
-      pure (.loop count b')
+      mkLoop count b'
     | .block par sub _ body =>
       if sub then do
         let p ← GateDef.callPos prep []
